@@ -534,7 +534,7 @@ def run_check(prop, stages, tier, seed, assumptions, rule, replay=None):
                 if (job, t) == (members[0][0], members[0][1]) and not st.race:
                     # the step may depend on what the process did before it (the properties hold for every history):
                     # execute the case again after the calls that preceded it in the generating process, shortest first
-                    for k in (1, 8, 64, 512):
+                    for k in (1, 8, 64, 512, 4096, 100000):   # (the last one: everything the generating process did before)
                         hist = cases_before(job[5], t, k)
                         rp = _save_replay(prop, st.family, tag, site, case, history=hist)
                         if _reproduces(st, drivers[st.race], work, rp, tag):
